@@ -128,6 +128,29 @@ func newReq(method, target string, body []byte) *http.Request {
 	return req
 }
 
+// ------------------------------------------------------------------ violations
+
+var (
+	violMu   sync.Mutex
+	violSeen = map[string]int{}
+)
+
+// viol reports a violation, at most twice per (case, key): the kit keeps only the
+// first 20 violations of a case, and one defect (hundreds of witnesses in one
+// case) must not crowd out a different failure found later in the same case.
+func viol(c *kit.Case, key, what string, witness any) {
+	violMu.Lock()
+	k := c.ID + "\x00" + key
+	violSeen[k]++
+	n := violSeen[k]
+	violMu.Unlock()
+	if n > 2 {
+		kit.Obs("further_witnesses_of_an_already_reported_violation_key", 1)
+		return
+	}
+	c.Viol(key, what, witness)
+}
+
 // ------------------------------------------------------------------ JSON value equality
 
 // jsonEqual compares two decoded JSON values; numbers are compared by value
